@@ -1,6 +1,7 @@
 package chainh
 
 import (
+	"strconv"
 	"github.com/jmoiron/sqlx"
 	"errors"
 	"os"
@@ -253,6 +254,9 @@ func (r *Replayer) Run(idx int, b *Behaviour) error {
 			}
 			if st.Op == "add" && err == nil && h != nil && r.Level > 0 {
 				r.checkReturned(k, c, st.ID, h)
+			}
+			if st.Op == "add" && got == st.Res && (got == "L" || got == "S" || got == "O") && os.Getenv("VERIF_METRICS") == "1" {
+				r.checkMetrics(k, c, &st)
 			}
 		case "restart":
 			finishRig(k)
@@ -557,4 +561,46 @@ func diffEvents(exp, got []evRec) string {
 		return ""
 	}
 	return fmt.Sprintf("%d events %v", len(got), got)
+}
+
+// checkMetrics: the /metrics endpoint as an observation of ingestion (outside the listed properties: reported as a note).
+// After a header has been stored with state s, latest_block_height{state=s} is its height and latest_block_timestamp its
+// time; for s = LONGEST_CHAIN that header is the tip, so the gauge is the tip height.
+func (r *Replayer) checkMetrics(k int, c *Concrete, st *Step) {
+	code, body := r.S.HTTP("GET", "/metrics", nil, nil)
+	if code != 200 {
+		r.miss(k, "metrics", "GET /metrics answers 200", fmt.Sprint(code))
+		return
+	}
+	state := stName[st.Res]
+	wantH := fmt.Sprint(st.Ht[st.ID])
+	wantT := fmt.Sprint(int64(c.Hdr[st.ID].Time))
+	gotH, gotT := "absent", "absent"
+	for _, line := range strings.Split(string(body), "\n") {
+		if strings.HasPrefix(line, "#") || !strings.Contains(line, `state="`+state+`"`) {
+			continue
+		}
+		f := strings.Fields(line)
+		if len(f) < 2 {
+			continue
+		}
+		v := f[len(f)-1]
+		if x, err := strconv.ParseFloat(v, 64); err == nil {
+			v = strconv.FormatFloat(x, 'f', 0, 64)
+		}
+		if strings.Contains(line, "latest_block_height") {
+			gotH = v
+		}
+		if strings.Contains(line, "latest_block_timestamp") {
+			gotT = v
+		}
+	}
+	r.Stats["metrics-compared"]++
+	if gotH != wantH || gotT != wantT {
+		r.miss(k, "metrics", fmt.Sprintf("after header %d was stored %s: latest_block_height{state=%q} = %s, latest_block_timestamp = %s", st.ID, state, state, wantH, wantT),
+			fmt.Sprintf("height %s, timestamp %s", gotH, gotT))
+	}
+	if st.Res == "L" && st.Tip != st.ID {
+		r.miss(k, "metrics", "a header stored on the longest chain is the tip", fmt.Sprintf("tip id %d", st.Tip))
+	}
 }
